@@ -34,6 +34,10 @@ theorem rotr_mod32 (x y : BitVec 32) :
   have e2 : 32 - y.toNat % 32 = (32#32 - y % 32#32).toNat := by
     rw [BitVec.toNat_sub, BitVec.toNat_umod]; simp; omega
   rw [e2, e1, BitVec.shiftLeft_eq', BitVec.ushiftRight_eq']
+theorem rotl_nat32 (x y : BitVec 32) : x.rotateLeft y.toNat = (x <<< (y % 32#32)) ||| (x >>> (32#32 - y % 32#32)) := by
+  rw [← rotl_mod32, BitVec.rotateLeft_mod_eq_rotateLeft]
+theorem rotr_nat32 (x y : BitVec 32) : x.rotateRight y.toNat = (x >>> (y % 32#32)) ||| (x <<< (32#32 - y % 32#32)) := by
+  rw [← rotr_mod32, BitVec.rotateRight_mod_eq_rotateRight]
 theorem rotl_mod64 (x y : BitVec 64) :
     x.rotateLeft (y.toNat % 64) = (x <<< (y % 64#64)) ||| (x >>> (64#64 - y % 64#64)) := by
   have h : y.toNat % 64 < 64 := Nat.mod_lt _ (by decide)
@@ -76,11 +80,16 @@ theorem ctz_conv64 (x : BitVec 64) : BitVec.signExtend 64 (BitVec.setWidth 32 (W
   generalize Wasm.ctz x = c at h
   bv_decide
 
+theorem rotl_nat64 (x y : BitVec 64) : x.rotateLeft y.toNat = (x <<< (y % 64#64)) ||| (x >>> (64#64 - y % 64#64)) := by
+  rw [← rotl_mod64, BitVec.rotateLeft_mod_eq_rotateLeft]
+theorem rotr_nat64 (x y : BitVec 64) : x.rotateRight y.toNat = (x >>> (y % 64#64)) ||| (x <<< (64#64 - y % 64#64)) := by
+  rw [← rotr_mod64, BitVec.rotateRight_mod_eq_rotateRight]
+
 macro "c03_simp" : tactic => `(tactic|
   simp [-BitVec.shiftLeft_eq', -BitVec.ushiftRight_eq', -BitVec.sshiftRight_eq', ctz_conv64,
     Full0, Full1, Full2, Full3, Partial1, Partial2, Sound1, Sound2, expect_some, expect_none, expect_ite, ctzBV, ctz_zero32, ctz_zero64,
     wBin, wRel, wEqz, wUn, wWrap, wExtS, wExtU, wSelect, wConst, binop, relop, b2i, Wasm.unop,
-    shl_mod32, shl_mod64, ushr_mod32, ushr_mod64, sshr_mod32, sshr_mod64, rotl_mod32, rotr_mod32, rotl_mod64, rotr_mod64,
+    shl_mod32, shl_mod64, ushr_mod32, ushr_mod64, sshr_mod32, sshr_mod64, rotl_mod32, rotr_mod32, rotl_mod64, rotr_mod64, rotl_nat32, rotr_nat32, rotl_nat64, rotr_nat64,
     Guard.addOk, Guard.subOk, Guard.mulOk, Guard.divS, Guard.divU, Guard.cnt32, Guard.shlRepr, Guard.shl32, Guard.shl64,
     Guard.rotl32, Guard.rotr32, Guard.rotl64, Guard.rotr64,
     Res.bind_ok, Res.bind_ub, Res.bind_stuck, Res.map_ok, Res.map_ub, Res.map_stuck, Res.andThen_ok, Res.andThen_ub, Res.andThen_stuck,
@@ -106,17 +115,19 @@ macro "c03_tac" : tactic => `(tactic|
        | (subst_vars; simp [ctz_zero32, ctz_zero64]; done)
        | (c03_inj; done)
        | (c03_inj; bv_decide)
-       | bv_decide))
+       | bv_decide
+       | (simp_all; done)))
 
 /-- `Sound` rows: the C function returned, so no UB branch was taken; the value then is WebAssembly's -/
 macro "c03_sound" : tactic => `(tactic|
   (c03_simp
    intros
+   rename_i h
+   revert h
    repeat' split
    all_goals first
-     | (simp_all; done)
-     | (rename_i h; revert h; c03_inj; intros; subst_vars; first | rfl | bv_decide)
-     | (exfalso; bv_decide)
-     | bv_decide))
+     | (intro h; cases h; done)
+     | (intro h; cases h; first | rfl | (c03_inj; done) | (c03_inj; bv_decide) | (simp_all; done))
+     | (intro h; simp_all; done)))
 
 end WaVerif.C03
